@@ -26,6 +26,11 @@ import (
 //	      n = number of non-empty string leaves in the parsed-back output)
 //	hos <loc>=<val>[!] ...  -> ok orig=<same|changed> <seen> ...   (only for assignments marked "!")
 //
+// Options (tokens before the assignments): m=s String() once (default) | m=ss String() twice, the second
+// output is judged | m=rs Redacted() first, then String() | m=d Redacted() inspected directly (no YAML
+// parse of the output; the struct is marshalled only to search for markers);  b=def start from
+// config.Default() instead of the zero Config (hos only: the defaults add leaves of their own).
+//
 // Facts: the schema of string leaves (yaml path + Go field path) and the set of paths that
 // Redacted() blanks, determined behaviourally on a configuration with a marker in every leaf.
 
@@ -150,6 +155,9 @@ type c35Assign struct {
 func c35Parse(f []string) []c35Assign {
 	var as []c35Assign
 	for _, tok := range f {
+		if strings.HasPrefix(tok, "m=") || strings.HasPrefix(tok, "b=") {
+			continue
+		}
 		w := strings.HasSuffix(tok, "!")
 		tok = strings.TrimSuffix(tok, "!")
 		p := strings.SplitN(tok, "=", 2)
@@ -161,8 +169,11 @@ func c35Parse(f []string) []c35Assign {
 	return as
 }
 
-func c35Build(as []c35Assign) *config.Config {
+func c35Build(as []c35Assign, def bool) *config.Config {
 	cfg := &config.Config{}
+	if def {
+		cfg = config.Default()
+	}
 	for _, a := range as {
 		c35At(reflect.ValueOf(cfg).Elem(), strings.Split(a.loc, ".")).SetString(a.val)
 	}
@@ -188,14 +199,41 @@ func init() {
 				return "bad-op"
 			}
 			as := c35Parse(f[1:])
-			cfg, twin := c35Build(as), c35Build(as)
-			raw := cfg.String()
+			mode, def := "s", false
+			for _, tok := range f[1:] {
+				if strings.HasPrefix(tok, "m=") {
+					mode = tok[2:]
+				}
+				if tok == "b=def" {
+					def = true
+				}
+			}
+			cfg, twin := c35Build(as, def), c35Build(as, def)
+			var raw string
+			back := &config.Config{}
+			parsed := false
+			switch mode {
+			case "ss":
+				_ = cfg.String()
+				raw = cfg.String()
+			case "rs":
+				_ = cfg.Redacted()
+				raw = cfg.String()
+			case "d":
+				back = cfg.Redacted()
+				parsed = true
+				data, _ := yaml.Marshal(back)
+				raw = string(data)
+			default:
+				raw = cfg.String()
+			}
 			orig := "same"
 			if !reflect.DeepEqual(cfg, twin) {
 				orig = "changed"
 			}
-			back := &config.Config{}
-			parsed := yaml.Unmarshal([]byte(raw), back) == nil
+			if mode != "d" {
+				parsed = yaml.Unmarshal([]byte(raw), back) == nil
+			}
 			leaves := map[string]string{}
 			n := 0
 			if parsed {
@@ -246,7 +284,7 @@ func init() {
 			return sb.String()
 		},
 		Gen: func(w *bufio.Writer, seed int64, tier string) {
-			r := newRng(seed)
+			r := newRngMixed(seed)
 			n := 600
 			if tier == "thorough" {
 				n = 20000
@@ -259,10 +297,17 @@ func init() {
 					kind = "hos"
 				}
 				fmt.Fprint(w, kind)
+				fmt.Fprintf(w, " m=%s", r.pickS("s", "s", "s", "ss", "rs", "d", "d"))
+				if kind == "hos" && r.chance(30) {
+					fmt.Fprint(w, " b=def")
+				}
 				used := map[string]bool{}
 				k := 1 + r.intn(14)
 				if r.chance(5) {
 					k = 0
+				}
+				if r.chance(3) {
+					k = 40 + r.intn(40) // many leaves at once
 				}
 				for j := 0; j < k; j++ {
 					var lf c35Leaf
@@ -280,6 +325,9 @@ func init() {
 					for _, c := range lf.yaml {
 						if c == "[]" {
 							c = strconv.Itoa(r.pick(0, 0, 1, 1, 2, 3))
+							if r.chance(2) { // long lists
+								c = strconv.Itoa(r.pick(31, 32, 255, 256, 257))
+							}
 						}
 						comps = append(comps, c)
 					}
@@ -332,7 +380,7 @@ func init() {
 			for _, lf := range schema {
 				expand(lf, 0, nil)
 			}
-			red := c35Build(as).Redacted()
+			red := c35Build(as, false).Redacted()
 			blank, kept := map[string]int{}, map[string]int{}
 			c35Leaves(reflect.ValueOf(red).Elem(), "", func(loc, val string) {
 				var p []string
@@ -424,6 +472,10 @@ func c35Hostile(r *rng, marker string) string {
 	}
 	if r.chance(3) {
 		s = string(r.bytes(1+r.intn(6))) + s
+	}
+	if r.chance(2) { // values around typical buffer sizes
+		n := r.pick(255, 256, 257, 4095, 4096, 4097, 65535, 65536, 65537)
+		s += r.pickS(" ", "\n", "\t\n", "") + strings.Repeat(r.pickS("x", "ab\n", "\t", "k: v\n"), n)[:n]
 	}
 	return s
 }
